@@ -1070,7 +1070,26 @@ func (x *g) anyExpr(d int) expr {
 		return x.numLeaf()
 	}
 	x.budget--
-	switch x.n("anykind", 14) {
+	switch x.n("anykind", 15) {
+	case 15:
+		// old syntax that has a shorter spelling in a newer edition: what a minifier may only use when the target allows it
+		os := x.visible(func(b *binding) bool { return b.typ == tObj || b.typ == tAny })
+		v := x.pick("baitbase", []string{"[null][0]", "[{p:{q:1},m(){return 2}}][0]", "undefined"})
+		if len(os) > 0 && x.chance("baitvar", 2) {
+			v = x.ref(os[x.n("baitobj", len(os)-1)])
+		}
+		simple := !strings.HasPrefix(v, "[")
+		if !simple {
+			// the tested value must be a plain reference for the rewrite to apply: bind it
+			x.feat("newer-syntax-bait")
+			form := x.pick("baitform1", []string{"V==null?undefined:V.p", "V===null||V===undefined?undefined:V.p.q", "V==null?void 0:V.m()", "V!=null?V.p:undefined", "V==null?W:V", "V!=null?V:W", "V===null||V===void 0?W:V", "V===undefined||V===null?undefined:V[\"p\"]"})
+			w := x.par(x.numExpr(d-1), 1)
+			return expr{"(function(V){return " + strings.ReplaceAll(form, "W", w) + "})(" + v + ")", 16}
+		}
+		x.feat("newer-syntax-bait")
+		form := x.pick("baitform2", []string{"V==null?undefined:V.p", "V===null||V===undefined?undefined:V.p.q", "V==null?void 0:V.m()", "V!=null?V.p:undefined", "V==null?W:V", "V!=null?V:W", "V===null||V===void 0?W:V", "Math.pow(W,2)", "Math.pow(2,W)"})
+		w := x.par(x.numExpr(d-1), 1)
+		return expr{strings.ReplaceAll(strings.ReplaceAll(form, "W", w), "V", v), 2}
 	case 0, 1, 2:
 		return x.numExpr(d)
 	case 3, 4:
